@@ -1194,7 +1194,12 @@ async fn build_forwarded_response(
         // we may want to interpret (B) as allowed ("MAY be skipped") as a form of optimization in
         // the future to reduce the number of network transactions that a CD=1 query needs.
         match &mut answers {
-            Answer::Normal(answers) => match DnssecSummary::from_records(answers.iter()) {
+            // An empty answer section (a negative answer that came without a SOA) is judged by its
+            // authority section: Bogus NSEC/NSEC3/RRSIG records must not be passed on with NOERROR.
+            Answer::Normal(answers) => match match answers.iter().next() {
+                Some(_) => DnssecSummary::from_records(answers.iter()),
+                None => DnssecSummary::from_records(authorities.iter()),
+            } {
                 DnssecSummary::Secure
                     if (request_meta.authentic_data || lookup_options.dnssec_ok) =>
                 {
@@ -1208,7 +1213,11 @@ async fn build_forwarded_response(
                 }
                 _ => {}
             },
-            Answer::NoRecords(soa) => match DnssecSummary::from_records(authorities.iter()) {
+            // The SOA is part of the negative answer (it carries the negative TTL): it counts for AD
+            // and for SERVFAIL like every other authority record.
+            Answer::NoRecords(soa) => match DnssecSummary::from_records(
+                authorities.iter().chain(soa.iter()),
+            ) {
                 DnssecSummary::Secure
                     if (request_meta.authentic_data || lookup_options.dnssec_ok) =>
                 {
